@@ -301,9 +301,18 @@ def gen_case(rng, size=1.0, force=None):
                 regs.append(gen_region(rng, c, len(contigs[c]), variants[c]))
         opts["regions"] = regs
     opts.update(force.get("opts", {}))
+    vcf_contigs = [c for c in contigs if c != "chrE" or rng.random() < 0.5]
+    if extra_contig and "chrE" not in vcf_contigs and opts["regions"] is None and rng.random() < 0.6:
+        # reads on a contig the VCF does not know: haplotag refuses unless --skip-missing-contigs, which drops the
+        # contig's reads by design (outside the quantifier of C10; exercised as an observation)
+        for k in range(2):
+            m = make_alignment(contigs["chrE"], [], [], 20 + 60 * k, 150 + 60 * k)
+            alns.append({"name": f"onE{k}", "chrom": "chrE", "start": m[0], "cigar": m[1], "seq": m[2], "flag": 0, "mapq": 60,
+                         "rg": some_rg, "qual": 30, "truth": [], "tags": [], "sample": None})
+        opts["skip_missing_contigs"] = rng.random() < 0.7
     case = {"kind": "haplotag", "ploidy": ploidy, "contigs": contigs, "variants": variants, "vcf_samples": vcf_samples,
             "phasing": phasing, "encoding": encoding, "read_groups": None if no_rg_header else read_groups, "alns": alns, "opts": opts,
-            "vcf_contigs": [c for c in contigs if c != "chrE" or rng.random() < 0.5]}
+            "vcf_contigs": vcf_contigs}
     # the exchange for the symmetry run: prefer a large phase set of a sample that is used
     cands = [(s, c, p, phasing[s][c]["ps"].count(p)) for s in vcf_samples for c in real
              for p in sorted(set(x for x in phasing[s][c]["ps"] if x is not None))]
